@@ -14,13 +14,14 @@
  *
  * Ghost state (what the statement talks about, updated by the harness from the observed inputs / outputs only):
  *   g_key   the key data base supplied a key for the EDIV/Rand of the last LL_ENC_REQ of this connection
- *   g_sent  LL_START_ENC_REQ was sent since that LL_ENC_REQ
+ *   g_sent  LL_START_ENC_REQ was sent since that LL_ENC_REQ and the central's LL_START_ENC_RSP is still awaited
  *   legit   the link entered the encrypted state by a LL_START_ENC_RSP received while g_key && g_sent, and was not paused / closed since
  * Invariant Inv (holds after construction, preserved by every step => holds in every reachable state):
  *   I1 is_encrypted => legit                                    (the property)
  *   I2 has_key_ && !encryption_in_progress_ => g_key && g_sent  (the code only waits for LL_START_ENC_RSP if LL_START_ENC_REQ went out for a real key)
  *   I3 encryption_in_progress_ => (has_key_ == g_key) && !g_sent
  *   I4 g_sent => g_key
+ *   I5 g_sent => has_key_ && !encryption_in_progress_           (while LL_START_ENC_RSP is awaited the code is ready to accept it)
  */
 #include "c27_common.h"
 
@@ -29,7 +30,7 @@ static uint32_t rd32(const uint8_t* p) { return (uint32_t)p[0] | ((uint32_t)p[1]
 
 static int inv(int h, int p, int e, int g_key, int g_sent, int legit)
 {
-    return (!e || legit) && (!(h && !p) || (g_key && g_sent)) && (!p || (h == g_key && !g_sent)) && (!g_sent || g_key);
+    return (!e || legit) && (!(h && !p) || (g_key && g_sent)) && (!p || (h == g_key && !g_sent)) && (!g_sent || g_key) && (!g_sent || (h && !p));
 }
 
 void harness(void)
@@ -120,7 +121,7 @@ void harness(void)
             CHECK(e1, "LL_START_ENC_RSP completes a started encryption procedure: the link is reported encrypted");
             CHECK(env_n_tx == 1 && ro == 0x06 && rl == 1, "LL_START_ENC_RSP is answered with LL_START_ENC_RSP");
             CHECK(env_tx_encrypted, "the answering LL_START_ENC_RSP is sent encrypted");
-            legit = 1;
+            legit = 1; g_sent = 0;          /* the start procedure is complete */
         } else {
             CHECK(!(env_n_tx >= 1 && ro == 0x06), "an unsolicited LL_START_ENC_RSP is not answered with LL_START_ENC_RSP");
         }
